@@ -7,13 +7,25 @@ import Ggql.Model.ValueText
 namespace Ggql.Desc
 open Ggql.ValueText
 
-/-- `writeDesc` at indent 0: block string when the text has a newline or a quote, else a one-line string;
-the text is written raw in both forms (no escaping: D32) -/
-def writeDesc (d : List Char) : List Char :=
+/-- `escapeDesc`: a backslash is doubled; in the block form a quote that is followed by another quote or by a
+backslash is escaped -/
+def escapeDesc (block : Bool) : List Char → List Char
+  | [] => []
+  | c :: rest =>
+    if c = '\\' then '\\' :: '\\' :: escapeDesc block rest
+    else if c = '"' then
+      (if block && (match rest with | x :: _ => x == '"' || x == '\\' | [] => false) then ['\\', '"'] else ['"']) ++
+        escapeDesc block rest
+    else c :: escapeDesc block rest
+
+/-- `writeDesc` at indent 0: block string when the text has a newline or a quote, else a one-line string.
+`raw`: the text is written as it is in both forms (no escaping: D32, the first commit); otherwise through
+`escapeDesc`. -/
+def writeDesc (raw : Bool) (d : List Char) : List Char :=
   if d.isEmpty then []
   else if d.any (fun c => c == '\n' || c == '"') then
-    "\"\"\"".toList ++ ['\n'] ++ d ++ ['\n'] ++ "\"\"\"".toList
-  else '"' :: d ++ ['"', '\n']
+    "\"\"\"".toList ++ ['\n'] ++ (if raw then d else escapeDesc true d) ++ ['\n'] ++ "\"\"\"".toList
+  else '"' :: (if raw then d else escapeDesc false d) ++ ['"', '\n']
 
 /-- the block-string loop of `readString` (after the opening `"""`): escapes are processed here too -/
 def readBlock (tb : Tbl) : Nat → List Char → List Char → Option (List Char × List Char)
